@@ -73,37 +73,42 @@ def run(chk) -> None:
     b = astq.single_def(fi.node, "max_order")
     if b is None:
         raise AnalysisError("max_order not bound once")
-    bound_ok, why = False, norm(b)
-    for pat in ("max(map(len, graph.values())) + C_", "max((len(V_) for V_ in graph.values())) + C_", "max([len(V_) for V_ in graph.values()]) + C_", "C_ + max(map(len, graph.values()))"):
-        m = astq.match(b, pat)
-        if m:
-            c = Folder(repo, MOD).try_fold(m["C_"])
-            bound_ok = isinstance(c, int) and c >= 1
-            break
-    else:
-        for pat, least in (("len(regions)", 0), ("len(regions) + C_", 0), ("len(graph) + C_", 0), ("len(graph)", 0)):
-            m = astq.match(b, pat)
-            if m is not None:
-                c = Folder(repo, MOD).try_fold(m["C_"]) if "C_" in m else 0
-                bound_ok = isinstance(c, int) and c >= least
-                break
-        else:
-            if astq.match(b, "max(map(len, graph.values()))") is not None:
-                bound_ok = False
-            else:
-                chk.error("milp-bound", fi.site(b), f"level bound `{norm(b)}` not understood")
-                bound_ok = None
-    if bound_ok is not None:
+    why = norm(b)
+
+    class _Sub(ast.NodeTransformer):
+        def visit_Call(self, n):
+            for pat in ("max(map(len, graph.values()))", "max((len(V_) for V_ in graph.values()))", "max([len(V_) for V_ in graph.values()])", "max((len(graph[V_]) for V_ in graph))", "max([len(graph[V_]) for V_ in graph])"):
+                if astq.match(n, pat) is not None:
+                    return ast.Name(id="DELTA__", ctx=ast.Load())
+            for pat in ("len(regions)", "len(graph)", "len(graph.keys())"):
+                if astq.match(n, pat) is not None:
+                    return ast.Name(id="NVERT__", ctx=ast.Load())
+            return self.generic_visit(n)
+
+    import copy
+
+    be = ast.fix_missing_locations(_Sub().visit(copy.deepcopy(b)))
+    try:
+        worst = None
+        for delta in range(1, 13):
+            for nv in (delta + 1, delta + 2, delta + 7):
+                v = Folder(repo, MOD, {"DELTA__": delta, "NVERT__": nv}).fold(be)
+                if not isinstance(v, int) or isinstance(v, bool):
+                    raise ValueError(f"bound evaluates to {v!r}")
+                if v < delta + 1 and worst is None:
+                    worst = (delta, nv, v)
         chk.expect(
-            bound_ok,
+            worst is None,
             "milp-bound",
             fi.site(b),
-            f"level bound `{why}` >= max degree + 1",
-            f"level bound `{why}` can be smaller than max degree + 1: the model can be infeasible or exclude the optimum",
+            f"level bound `{why}` >= max degree + 1 (evaluated for max degree 1..12)",
+            f"level bound `{why}` can be smaller than max degree + 1" + (f" (max degree {worst[0]} -> {worst[2]} levels)" if worst else "") + ": the model can be infeasible or exclude the optimum",
             K(fi, "bound"),
             expected="max(map(len, graph.values())) + 1",
             found=why,
         )
+    except Exception as ex:
+        chk.error("milp-bound", fi.site(b), f"level bound `{why}` not understood: {ex}")
 
     # ---- sense --------------------------------------------------------------------------
     prob = astq.first_assign(fi.node, "problem")
@@ -224,15 +229,14 @@ def run(chk) -> None:
     if obj:
         chk.expect(astq.match(obj[0].value, "pulp.lpSum(terms)") is not None, "milp-objective", fi.site(obj[0]), "objective = lpSum(terms)", f"objective is `{norm(obj[0].value)}`, not lpSum(terms)", K(fi, "objective-sum"))
     t_appends = [c for c in astq.calls(fi.node, "append") if astq.dotted(c.func.value) == "terms"]
-    if len(t_appends) != 2:
-        chk.violation("milp-objective", fi.where, f"expected two objective term shapes (level 0 / higher levels), found {len(t_appends)}", K(fi, "objective-terms"))
+    if not t_appends:
+        chk.violation("milp-objective", fi.where, "no objective terms are collected", K(fi, "objective-terms"))
     else:
         tst = fm.stmt_of(t_appends[0])
         tloops = fm.of(tst).loops
         loops_ok = False
         lvl = var = None
         if len(tloops) == 2:
-            m = astq.match(tloops[0], "for L_, VS_ in vars_by_order.items():\n    pass")
             o_it = astq.match(tloops[0].iter, "vars_by_order.items()") is not None and isinstance(tloops[0].target, ast.Tuple)
             if o_it:
                 lvl, vs = tloops[0].target.elts[0].id, tloops[0].target.elts[1].id
@@ -249,47 +253,46 @@ def run(chk) -> None:
         )
         if loops_ok:
             length_def = [v for s, v in astq.assignments(tloops[1], "length") if v is not None]
-            e2 = env.with_(**{lvl: Aff.of(("LEVEL",)), var: Aff.of(("VAR",))})
-            if length_def and astq.match(length_def[0], f"region_by_var[{var}][2]") is not None:
-                e2 = e2.with_(length=Aff.of(("LEN",)))
-            shapes = {}
-            for c in t_appends:
-                st = fm.stmt_of(c)
-                gs = [g for g in fm.of(st).guards if g.kind == "if" and any(g.stmt is n for n in ast.walk(tloops[1]))]
-                if len(gs) != 1:
-                    chk.error("milp-objective", fi.site(c), "objective term not under exactly one level test")
-                    continue
-                # which levels take this branch?  evaluate the test on levels 0..4
-                takes = []
-                for k in range(0, 5):
-                    val = Folder(repo, MOD, {lvl: k}).try_fold(gs[0].test, None)
-                    if val is None:
-                        takes = None
-                        break
-                    takes.append(bool(val) == gs[0].polarity)
-                if takes is None:
-                    chk.error("milp-objective", fi.site(c), f"level test `{norm(gs[0].test)}` does not fold on concrete levels")
-                    continue
-                shapes[tuple(takes)] = (product_form(e2, c.args[0]), c)
-            lvl0 = (True, False, False, False, False)
-            rest = (False, True, True, True, True)
-            want0 = (1, tuple(sorted([("LEN",), ("VAR",)], key=repr)))
-            wantk = (-1, tuple(sorted([("LEN",), ("VAR",), ("LEVEL",)], key=repr)))
-            chk.expect(
-                set(shapes) == {lvl0, rest},
-                "milp-objective-cases",
-                fi.site(tloops[1]),
-                "the level test separates level 0 from all higher levels",
-                "the branch on the level does not separate exactly level 0 from levels >= 1",
-                K(fi, "objective-branch"),
-                found=[str(k) for k in shapes],
-            )
-            if lvl0 in shapes:
-                pf, c = shapes[lvl0]
-                chk.expect(pf == want0, "milp-objective-level0", fi.site(c), "level 0 contributes +len * x", f"level-0 term `{norm(c.args[0])}` is not +length * variable", K(fi, "objective-level0"), expected="+1 * var * length", found=norm(c.args[0]))
-            if rest in shapes:
-                pf, c = shapes[rest]
-                chk.expect(pf == wantk, "milp-objective-levelk", fi.site(c), "level k >= 1 contributes -k * len * x", f"higher-level term `{norm(c.args[0])}` is not -level * length * variable", K(fi, "objective-levelk"), expected="-1 * var * length * order", found=norm(c.args[0]))
+            len_ok = bool(length_def) and astq.match(length_def[0], f"region_by_var[{var}][2]") is not None
+            chk.expect(len_ok, "milp-objective-length", fi.site(tloops[1]), "the weight of a variable is the length (third component) of its region", "the objective weight is not region_by_var[var][2] (the stem length)", K(fi, "objective-length"), found=[norm(x) for x in length_def])
+            # coefficient of x[i,k] as a function of the level k: evaluate the collected term(s) on a small grid
+            def coeff(k, v, ln):
+                total, n = 0.0, 0
+                for c in t_appends:
+                    st = fm.stmt_of(c)
+                    gs = fm.guards_within(st, tloops[1])
+                    taken = True
+                    for g in gs:
+                        val = Folder(repo, MOD, {lvl: k}).try_fold(g.test, None)
+                        if val is None:
+                            raise AnalysisError(f"level test `{norm(g.test)}` does not fold on concrete levels")
+                        taken = taken and (bool(val) == g.polarity)
+                    if taken:
+                        total += Folder(repo, MOD, {lvl: k, var: v, "length": ln}).fold(c.args[0])
+                        n += 1
+                return total, n
+            rows = {}
+            ok_all = True
+            try:
+                for k in range(0, 6):
+                    c11, n = coeff(k, 1.0, 1.0)
+                    c13, _ = coeff(k, 1.0, 3.0)
+                    c21, _ = coeff(k, 2.0, 1.0)
+                    want = 1.0 if k == 0 else -float(k)
+                    rows[k] = c11
+                    ok_all = ok_all and n == 1 and abs(c11 - want) < 1e-9 and abs(c13 - 3 * want) < 1e-9 and abs(c21 - 2 * want) < 1e-9
+                chk.expect(
+                    ok_all,
+                    "milp-objective-coeff",
+                    fi.site(tloops[1]),
+                    "coefficient of x[i,k] is +len_i for k = 0 and -k*len_i for k >= 1 (levels 0..5, bilinear in x and len)",
+                    "the objective coefficient of x[i,k] is not +len on level 0 and -k*len on level k",
+                    K(fi, "objective-coeff"),
+                    expected={k: (1 if k == 0 else -k) for k in range(6)},
+                    found=rows,
+                )
+            except Exception as ex:
+                chk.error("milp-objective-coeff", fi.site(tloops[1]), f"objective term not evaluable: {ex}")
     # ---- constraints -------------------------------------------------------------------------------------
     one = [s for s in cons if astq.match(s.value, "pulp.lpSum(X_) == 1") is not None]
     ok1 = False
@@ -384,7 +387,7 @@ def run(chk) -> None:
     c01.check_stems(chk)
     c01.check_regions(chk)
     c01.check_fill(chk)
-    for rule, n in (("conflict-predicate", 1), ("milp-objective-level0", 1), ("milp-objective-levelk", 1), ("milp-adjacency", 1), ("milp-one-level", 1), ("milp-bound", 1)):
+    for rule, n in (("conflict-predicate", 1), ("milp-objective-coeff", 1), ("milp-objective-length", 1), ("milp-adjacency", 1), ("milp-one-level", 1), ("milp-bound", 1)):
         chk.floor(rule, n)
 
 
